@@ -154,6 +154,22 @@ def c13(pid, tier, seed, replay, ctx):
 
 
 def c06(pid, tier, seed, replay, ctx):
+    res = c06_val(pid, tier, seed, replay, ctx)
+    if replay:
+        return res
+    # framework level: one fresh draw per transition lookup (Spec/C06.lean, fwMonitor) on the hooked log
+    from props import fw_monitor_stage
+    n, mons = fw_monitor_stage(pid, tier, seed, ctx, [("general", 800, 20000), ("c08", 500, 10000), ("c07", 300, 5000)])
+    res["evaluations"] += n
+    res["traces_validated_against_impl"] += n
+    have = {k for k, _ in res["monitor_failures"]}
+    res["monitor_failures"] += [(k, t) for k, t in mons if k not in have]
+    res.setdefault("extra", {})["framework_cases_for_draw_monitor"] = n
+    res["rule"] += "; plus framework cases (generators general, c08, c07) whose hooked log is checked for one fresh draw per transition lookup and the target the declared probabilities assign to it"
+    return res
+
+
+def c06_val(pid, tier, seed, replay, ctx):
     return run_val(
         pid, tier, seed, replay, ctx,
         {"quick": ["--cases", "1500", "--exhaustive", "30"], "medium": ["--cases", "8000", "--exhaustive", "60"], "thorough": ["--cases", "20000", "--exhaustive", "400"]},
